@@ -58,6 +58,27 @@ def job_wrappers(prefix):
             q = base.calls
             ok = len(q) == 1 and z3.is_true(z3.simplify(z3.And(to_z3(q[0][0]) == -b, to_z3(q[0][1]) == -a)))
             rep.add(f'{tag}/frame.one-base-query(-tb,-ta)', 'frame', 'discharged' if ok else 'refuted', 'pyvc-exec')
+        # ---- tensor-valued times in a higher precision than the motion: the base is queried at exactly (-tb, -ta), no conversion of the times
+        cx = Ctx(E, [])
+        base = WR.BaseBM()
+        obj = E.instantiate(_cls(E, 'ReverseBrownian'), [base], {}, cx, 0)
+        ta, tb = WR.TimeTensor(cx.fresh('ta')), WR.TimeTensor(cx.fresh('tb'))
+        cx.assume(ta.e <= tb.e)
+        try:
+            E.call(E.get_attr(obj, '__call__', cx, 0), [ta, tb], {'return_U': True, 'return_A': False}, cx, 0)
+            q = base.calls
+            s_ = z3.Solver()
+            s_.set('timeout', 20000)
+            for f_ in cx.pc:
+                s_.add(f_)
+            s_.add(z3.Not(z3.And(to_z3(q[0][0]) == -tb.e, to_z3(q[0][1]) == -ta.e)) if len(q) == 1 else z3.BoolVal(True))
+            r_ = s_.check()
+            ok = len(q) == 1 and r_ == z3.unsat
+            rep.add(f'{prefix}/ReverseBrownian.__call__[tensor-valued times of another dtype]/frame.one-base-query(-tb,-ta)-at-full-precision', 'frame',
+                    'discharged' if ok else ('refuted' if r_ == z3.sat or len(q) != 1 else 'unknown'), 'pyvc-exec+z3',
+                    model=None if ok else {'base query': [str(z3.simplify(to_z3(x))) for x in q[0][:2]] if q else 'none'})
+        except PyExc as e:
+            rep.add(f'{prefix}/ReverseBrownian.__call__[tensor-valued times of another dtype]/no-raise', 'no-raise', 'refuted', 'pyvc-exec', model={'raised': f'{e.cls}: {e.msg}'})
         # ---- ReverseBrownian.__init__: wraps exactly the object it is given, whatever its class (reversing twice is the original motion
         #      only because two wrappers compose; the adjoint of an adjoint and solves on negative times rely on it)
         rep.under_contract(D + '.ReverseBrownian.__init__')
